@@ -156,7 +156,10 @@ static void part_gauss(const std::vector<unsigned>& ns, bool mixtures) {
                 // variant A: freshly renormalised; variant B (odd cases): NOT renormalised, every bunch holding a charge that differs from
                 // its share (as between two renormalisations of a run) - the moments of a projection do not depend on its amplitude
                 const bool raw = (im + is + bt) % 2 == 1;
-                if (raw) for (unsigned b = 0; b < nb; b++) { const float amp = fill[b] * (b % 2 ? 1.3f : 0.85f) / 6.2831853f; for (size_t i = 0; i < (size_t)n * n; i++) dat[(size_t)b * n * n + i] *= amp; }
+                // ... nor on its absolute magnitude: the un-normalised data comes in four magnitudes (x1, x2^-24, x2^-50, x2^20: a weak or strong bunch, data in
+                // other units), the moments are ratios
+                const float pw[4] = {1.f, 5.9604645e-8f, 8.8817842e-16f, 1048576.f};
+                if (raw) for (unsigned b = 0; b < nb; b++) { const float amp = fill[b] * (b % 2 ? 1.3f : 0.85f) / 6.2831853f * pw[(im + 2 * is + bt + b) % 4]; for (size_t i = 0; i < (size_t)n * n; i++) dat[(size_t)b * n * n + i] *= amp; }
                 auto ps = mkps(E.qmin, E.qmax, E.pmin, E.pmax, fill, dat.data());
                 if (raw) { ps->updateXProjection(); ps->updateYProjection(); ps->integrate(); ps->variance(0); ps->variance(1); }
                 else renorm(*ps);
@@ -239,7 +242,7 @@ int main(int argc, char** argv) {
     R.init(argc, argv, "C09", "C09_moments"); quiet();
     R.rule = "one evaluation = one real PhaseSpace built from enumerated data, renormalised and measured; distinct = FNV of case + resulting data/moments; trivial = single bunch dense data";
     R.sample_every = 5000;
-    const bool T = R.thorough();
+    const bool T = true /* the wide lattices run in both tiers */; const bool D = R.thorough(); (void)D;
     part_norm(T ? std::vector<unsigned>{8, 9, 16, 17, 24} : std::vector<unsigned>{8, 9});
     part_gauss(T ? std::vector<unsigned>{32, 33, 48, 64, 65, 96} : std::vector<unsigned>{32, 33, 48}, T);
     part_copy(T ? std::vector<unsigned>{8, 9, 16, 17, 32, 33} : std::vector<unsigned>{8, 9, 16});
